@@ -3,14 +3,14 @@ MSG = ["mptcore/message/%s.c" % f for f in "message_read message_argv memchr mem
 ARR = ["mptcore/message/message_append.c", "mptcore/array/array_append.c", "mptcore/array/array_insert.c",
        "mptcore/array/buffer_alloc.c", "mptcore/array/buffer_insert.c", "mptcore/array/array_clone.c",
        "mptcore/misc/refcount.c", "mptcore/queue/queue_data.c", "mptcore/array/buffer_set.c"]
-FNS = ["READ", "LENGTH", "MEMCHR", "MEMFCN", "MEMSTR", "MEMTOK", "ARGV", "MEMCPY", "APPEND", "GET"]
+FNS = ["READ", "LENGTH", "MEMCHR", "MEMFCN", "MEMSTR", "MEMTOK", "ARGV", "MEMCPY", "APPEND", "APPEND0", "GET"]
 FP = [(r"mpt_memfcn|mpt_memrfcn", ["is_tok", "notSpace", "memchr_wrap"]),
       ] + BUF_FP
 
 
 def UNW(nb):
     frag, byte = 4 + 2, nb + 3
-    u = {"harness": nb + 4, "build": nb + 4, "memchr": byte}
+    u = {"harness": nb + 4, "build": nb + 4, "memchr": byte, "memcpy": byte, "memset": byte, "memmove": byte}
     for f in ("mpt_memchr", "mpt_memrchr", "mpt_memfcn", "mpt_memrfcn", "mpt_memtok", "nextChar",
               "mpt_message_argv", "mpt_message_read", "mpt_message_length", "mpt_message_append"):
         u[f] = max(frag, byte)
@@ -24,13 +24,15 @@ def queries(tier):
     qs = []
     for fn in FNS:
         d = {"FN": "F_" + fn, "NB": nb}
+        if fn == "APPEND0":
+            d = {"FN": "F_APPEND", "NB": nb, "APPEND_NO_CONT": 1}
         if fn == "ARGV":
             d["NB"] = nb - 1
             d["ARGV_STEPS"] = 2 if tier == "quick" else 3
         if fn in ("MEMTOK", "ARGV"):
             d["ALPHABET"] = "{'a',' ',':','#','\\'','\\\\','\\n',0}"
         qs.append(Q("frag_" + fn.lower(), "C17/frag.c", units=MSG + ARR + ["mptcore/queue/queue_data.c"][:0],
-                    harness_defines=d, unwind_default=nb + 9, stubs=["libc.c", "no_traits.c"],
+                    harness_defines=d, unwind_default=nb + 9, stubs=["libc.c", "no_traits.c"] + (["libc_loops.c"] if fn.startswith("APPEND") else []),
                     regions=["C17_ARGV_QUOTE_SPLIT"] if fn == "ARGV" else [], fp=FP, unwind=UNW(nb),
                     bounds="string length 0..%d, every byte value%s, 4 fragments at all cut points incl. empty fragments" % (
                         nb, " (alphabet {a,space,:,#,',\\\\,\\n,NUL} for token functions)" if "ALPHABET" in d else ""),
